@@ -1,6 +1,8 @@
 #!/bin/sh
 # _CoqProject = the .v files matched by the patterns of coq/included.txt
 # (Extract/*.v are compiled separately by runner/build.sh)
-cd "$(dirname "$0")/../coq"
-{ echo "-Q . DV"; for pat in $(cat included.txt); do ls $pat 2>/dev/null; done | LC_ALL=C sort -u; } > _CoqProject.new
-if cmp -s _CoqProject.new _CoqProject; then rm _CoqProject.new; else mv _CoqProject.new _CoqProject; rm -f Makefile; fi
+cd "$(dirname "$0")/../coq" || exit 1
+tmp=_CoqProject.new.$$
+{ echo "-Q . DV"; for pat in $(cat included.txt); do ls $pat 2>/dev/null; done | LC_ALL=C sort -u; } > "$tmp"
+if cmp -s "$tmp" _CoqProject; then rm -f "$tmp"; else mv -f "$tmp" _CoqProject; rm -f Makefile; fi
+exit 0
